@@ -312,13 +312,16 @@ def run_extract(case, rec):
             hits = [k for k in range(len(points)) if k not in misses]
             if misses:
                 rec.nontrivial((combo, policy))
-            for custom in (False, True):
-                if custom and case['length'] != 2:
-                    continue
+            variants = [(False, False)]
+            if case['length'] == 2:
+                variants.append((True, False))
+            if len(set(combo)) < len(combo):
+                variants.append((False, True))      # the same station listed twice: fully identical rows
+            for custom, identical_rows in variants:
                 n += 1
                 lon_col, lat_col, dim = ('x', 'y', 'station') if custom else ('lon', 'lat', 'point')
                 frame = pandas.DataFrame({lon_col: [p.x for p in points], lat_col: [p.y for p in points],
-                                          'name': [f'row{k}' for k in range(len(points))]})
+                                          'name': [f'site-{combo[k]}' if identical_rows else f'row{k}' for k in range(len(points))]})
                 csv = os.path.join(tmp, f'points-{n}.csv')
                 frame.to_csv(csv, index=False)
                 cli_out = os.path.join(tmp, f'cli-{n}.nc')
@@ -326,7 +329,7 @@ def run_extract(case, rec):
                 if custom:
                     argv += ['-c', lon_col, lat_col, '-d', dim]
                 status, message = run_cli(argv)
-                label = f"extract-points {list(combo)} {policy}{' custom names' if custom else ''}"
+                label = f"extract-points {list(combo)} {policy}{' custom names' if custom else ''}{' identical rows' if identical_rows else ''}"
                 must_fail = (policy == 'error' and misses) or (policy in ('drop', 'fill') and not hits)
                 if must_fail:
                     if policy == 'error':
